@@ -6,3 +6,4 @@ CONSTANTS
   MaxSteps = 5
   MaxDepth = 1
   EmitAll = TRUE
+  CrossRemark = TRUE
